@@ -51,6 +51,9 @@ var propC16 = &pProp{
 					o.Stats = false // the parser's own default Stats value is the clock
 				}
 				o.ReuseOptions = r.chance(1, 2)
+				if r.chance(1, 7) {
+					o.UseFile, o.UseReader = true, false // ParseFile is an entry point of its own
+				}
 				plan := drawPlan(r, gp.HasState)
 				if r.chance(1, 3) {
 					plan.NestedPct = 50
